@@ -131,7 +131,7 @@ def relevant_symbols(t):
         n
         for n in range(t.dim())
         if tn.norm(t2[[slice(1, 3)] * n + [0] + [slice(1, 3)] * (t.dim() - n - 1)])
-        > 1e-10
+        > 1e-6
     ]
 
 
